@@ -232,3 +232,31 @@ def rule_recursive_registration(repo: Repo, rep: Report, rule: str) -> None:
         rep.violation(rule, sub, f"{nt.fq}|nested-guard|reg={okr}|args={bool(rec_args)}",
                       "a dataclass found inside a generic/union field type is registered only under extra conditions (or type arguments are not descended): "
                       "some nested models never get their rename hooks", nt.loc())
+
+
+def rule_string_formats(repo: Repo, rep: Report, rule: str) -> None:
+    """`type: string` values travel as JSON strings.  The Python type chosen for a string *format* must therefore encode back to a
+    string: `str` itself, or a leaf type whose registered unstructure hook produces text (datetime, date, UUID, bytes -> base64 ...).
+    A cattrs-native number/bool type would decode "0012" and re-encode it as the JSON number 12."""
+    conv = repo.module(CONV)
+    regs = hook_registrations(conv)
+    sr = repo.module("types.resolvers.schema_resolver")
+    rs = sr.classes["OpenAPISchemaResolver"].methods.get("_resolve_string") if "OpenAPISchemaResolver" in sr.classes else None
+    if rs is None:
+        raise AnalysisError("anchor vanished: OpenAPISchemaResolver._resolve_string")
+    n = 0
+    for node in own_nodes(rs.node):
+        if isinstance(node, ast.Assign) and isinstance(node.value, ast.Dict) and any(const_str(k) in ("date-time", "uuid", "date") for k in node.value.keys if k is not None):
+            for k, v in zip(node.value.keys, node.value.values):
+                fmt_, ty = const_str(k), const_str(v)
+                if fmt_ is None or ty is None:
+                    continue
+                n += 1
+                sub = f"{sr.relpath}:_resolve_string format `{fmt_}` -> `{ty}`"
+                if ty == "str" or (ty in regs and "unstructure" in regs[ty]):
+                    rep.ok(rule, sub, "encodes back to a JSON string" + ("" if ty == "str" else f" (hook {regs[ty]['unstructure'][0]})"), rs.loc(v))
+                else:
+                    rep.violation(rule, sub, f"{rs.fq}|string-format-non-text|{fmt_}|{ty}",
+                                  f"a `type: string, format: {fmt_}` value is typed `{ty}`, which the converter writes as a JSON {'number' if ty in ('int', 'float') else 'value of another kind'}: "
+                                  "a conforming document (\"0012\") decodes and is re-encoded as 12 - the wire type and text change silently", rs.loc(v))
+    rep.require(n >= 5, f"{rule}: only {n} entries of the string format table found (floor 5)")
